@@ -48,6 +48,19 @@ theorem coveredB_iff {h : Heap} : coveredB h = true ↔ Covered h := by
   · intro hp
     exact (forall_obj_iff (h := h) (P := fun o => ∀ e ∈ o.edges, e.inBlacken.isSome = true ∨ Rooted h e.target)).mp (fun i o ho e he => hp i o e ho he)
 
+theorem markCoveredB_iff {h : Heap} : markCoveredB h = true ↔ MarkCovered h := by
+  unfold markCoveredB MarkCovered
+  rw [List.all_eq_true]
+  simp only [List.all_eq_true, Bool.or_eq_true, isRoot_iff, decide_eq_true_eq]
+  constructor
+  · intro hp i o e ho he
+    exact (forall_obj_iff (h := h)
+      (P := fun o => ∀ e ∈ o.edges, e.inMark = some .mark ∨ Rooted h e.target)).mpr hp i o ho e he
+  · intro hp
+    exact (forall_obj_iff (h := h)
+      (P := fun o => ∀ e ∈ o.edges, e.inMark = some .mark ∨ Rooted h e.target)).mp
+      (fun i o ho e he => hp i o e ho he)
+
 theorem graphMapIdB_sound {h h' : Heap} (hb : graphMapIdB h h' = true) : GraphMap id h h' := by
   intro i o ho
   unfold graphMapIdB at hb
@@ -160,6 +173,29 @@ theorem label_covered' {S : Schema} {kinds : List Nat} {fields : Nat → List (N
     exact label_rooted ht (hex i o e t ho he ht hexm)
   · left
     simp only [labelEdge, ht, hlk, Option.isSome_some]
+
+/-- a table that passes `markCovers` makes every well-typed labelled heap satisfy the hypothesis of
+`collect_safe_mark` -/
+theorem label_mark_covered' {S : Schema} {kinds : List Nat} {fields : Nat → List (Nat × List Nat)}
+    {exempt : List (Nat × Nat × Nat)} {h : RawHeap}
+    (hcov : S.markCovers kinds fields exempt = true) (hty : WellTyped kinds fields h)
+    (hex : ExemptRooted exempt h) : MarkCovered (label S h) := by
+  intro i o' e' ho' he'
+  obtain ⟨o, ho, rfl⟩ := label_getElem? ho'
+  simp only [labelObj, List.mem_map] at he'
+  obtain ⟨e, he, rfl⟩ := he'
+  obtain ⟨hk, hedges⟩ := hty i o ho
+  obtain ⟨t, ht, ft, hft, hf, htk⟩ := hedges e he
+  unfold Schema.markCovers at hcov
+  simp only [List.all_eq_true, Bool.or_eq_true, List.contains_iff_mem, beq_iff_eq] at hcov
+  have := hcov o.kind hk ft hft t.kind htk
+  rw [hf] at this
+  rcases this with hexm | hlk
+  · right
+    simp only [labelEdge, ht]
+    exact label_rooted ht (hex i o e t ho he ht hexm)
+  · left
+    simp only [labelEdge, ht, hlk]
 
 theorem label_closed {S : Schema} {kinds : List Nat} {fields : Nat → List (Nat × List Nat)} {h : RawHeap}
     (hty : WellTyped kinds fields h) : Closed (label S h) := by
